@@ -145,6 +145,7 @@ func WSetups(names []string, maxSize int) [][]ops.Op {
 				ops.Op{K: "put", P: w + "/x_", C: ""},
 				ops.Op{K: "mkdir", P: w + "/d"},
 				ops.Op{K: "put", P: w + "/d/x", C: "deep " + names[i]},
+				ops.Op{K: "put", P: w + "/d/da", C: "child whose name starts with a character of its parent's path"},
 				ops.Op{K: "mkdir", P: w + "/d/ä e"},
 				ops.Op{K: "put", P: w + "/d/ä e/y.z", C: "deeper " + names[i]},
 			)
@@ -176,6 +177,15 @@ func WAlphabet(names []string) []ops.Op {
 		for _, v := range names {
 			if w != v {
 				a = append(a, ops.Op{K: "rename", P: "/" + w + "/x", Q: "/" + v + "/x"})
+			}
+		}
+	}
+	// nested directories: within the same parent, into another top-level directory, and recursive removal
+	for _, w := range names {
+		a = append(a, ops.Op{K: "rename", P: "/" + w + "/d", Q: "/" + w + "/e"}, ops.Op{K: "removeall", P: "/" + w + "/d"}, ops.Op{K: "rename", P: "/" + w + "/d/ä e", Q: "/" + w + "/d/ä f"})
+		for _, v := range names {
+			if w != v {
+				a = append(a, ops.Op{K: "rename", P: "/" + w + "/d", Q: "/" + v + "/dd"})
 			}
 		}
 	}
@@ -399,5 +409,30 @@ func KindReuseAlphabet() []ops.Op {
 		{K: "put", P: "/n", C: "n"}, {K: "mkdir", P: "/n"}, {K: "remove", P: "/n"},
 		{K: "put", P: "/f", C: "file f"}, {K: "mkdir", P: "/d"}, {K: "put", P: "/d/x", C: ""},
 		{K: "rename", P: "/f", Q: "/n"}, {K: "rename", P: "/d", Q: "/n"}, {K: "rename", P: "/n", Q: "/m"}, {K: "removeall", P: "/n"},
+	}
+}
+
+// MarkerSetup: a directory with four descendants (two levels) and a top-level file, all carrying the marker.
+func MarkerSetup() []ops.Op {
+	d := "/" + Marker + "-dir"
+	return []ops.Op{
+		{K: "mkdir", P: d},
+		{K: "put", P: d + "/" + Marker + "-c1", C: Marker + " one"},
+		{K: "put", P: d + "/" + Marker + "-c2", C: ""},
+		{K: "mkdir", P: d + "/" + Marker + "-sub"},
+		{K: "put", P: d + "/" + Marker + "-sub/" + Marker + "-c3", C: "T600:1"},
+		{K: "put", P: "/" + Marker + "-file", C: "content " + Marker},
+	}
+}
+
+// LinkAlphabet: symlinks inside directories (for the listing clauses of C13; no reference model, level raw).
+func LinkSetup() []ops.Op {
+	return []ops.Op{{K: "mkdir", P: "/d"}, {K: "put", P: "/d/a", C: "hello"}, {K: "put", P: "/d/b", C: "xy"}, {K: "mkdir", P: "/l"}}
+}
+func LinkAlphabet() []ops.Op {
+	return []ops.Op{
+		{K: "symlink", P: "/d/a", Q: "/d/la"}, {K: "symlink", P: "/d/b", Q: "/d/lb"}, {K: "symlink", P: "/d/a", Q: "/d/lc"},
+		{K: "symlink", P: "/d/a", Q: "/l/x"}, {K: "symlink", P: "/d/b", Q: "/l/y"},
+		{K: "put", P: "/d/c", C: "x"}, {K: "remove", P: "/d/a"}, {K: "remove", P: "/d/la"},
 	}
 }
